@@ -225,7 +225,7 @@ func mutateText(r *rand.Rand, a []string, alpha []string) []string {
 func init() {
 	fw.Register(&fw.Check{
 		ID:          "C27",
-		Rule:        "case 0: all pairs of line sequences of length 0..5 over a 3-line alphabet (364x364 pairs, exhaustive); other cases: batches of random pairs - independent random texts over small alphabets (many repeated lines) and mutated copies (run deletions/insertions up to 20 lines, replacements, block moves) of texts up to 400 lines, with long common runs (>6, >14 lines) and trailing-newline variations. Oracle: unified-diff applier (hunk headers, context lines must match, elided '... N lines skipped ...' runs re-read from the texts) must reproduce b; '+'/'-' count must equal len(a)+len(b)-2*LCS (quadratic DP). Pair non-trivial when texts differ and share at least one line",
+		Rule:        "case 0: all pairs of line sequences of length 0..5 over a 3-line alphabet (364x364 pairs, exhaustive); other cases: batches of random pairs - independent random texts over small alphabets (many repeated lines) and mutated copies (run deletions/insertions up to 20 lines, replacements, block moves) of texts up to 400 lines, with long common runs (>6, >14 lines) and trailing-newline variations; alphabets whose lines differ only in a trailing carriage return, blank or letter case, and CRLF/LF conversions of one side. Oracle: unified-diff applier (hunk headers, context lines must match, elided '... N lines skipped ...' runs re-read from the texts) must reproduce b; '+'/'-' count must equal len(a)+len(b)-2*LCS (quadratic DP). Pair non-trivial when texts differ and share at least one line",
 		Assumptions: []string{"texts contain no line of the form '  ... N lines skipped ...' (the renderer's own elision marker is ambiguous with such content)"},
 		Cases: func(tier string) int {
 			if tier == "thorough" {
@@ -272,6 +272,8 @@ func init() {
 				big[i] = fmt.Sprintf("line %d", i)
 			}
 			alphas = append(alphas, big)
+			// lines that differ only in a trailing carriage return, blank or letter case are different lines
+			alphas = append(alphas, []string{"x", "x\r", "y", "y\r", ""}, []string{"a", "a ", "a\t", "A", "a\r", " a", "", "\r"})
 			for i := 0; i < 150; i++ {
 				al := alphas[c.R.Intn(len(alphas))]
 				n := c.R.Intn([]int{8, 40, 400}[c.R.Intn(3)] + 1)
@@ -288,6 +290,23 @@ func init() {
 				if c.R.Intn(5) == 0 && a[len(a)-1] != "" {
 					a = append(a, "") // trailing newline on one side only
 				}
+				if c.R.Intn(8) == 0 {
+					// line-ending conversion: some or all lines of b gain or lose a carriage return
+					b = append([]string(nil), b...)
+					all := c.R.Intn(2) == 0
+					for k := range b {
+						if all || c.R.Intn(3) == 0 {
+							if strings.HasSuffix(b[k], "\r") {
+								b[k] = strings.TrimSuffix(b[k], "\r")
+							} else if k < len(b)-1 || b[k] != "" {
+								b[k] += "\r"
+							}
+						}
+					}
+				}
+				if strings.Contains(strings.Join(a, "\n")+strings.Join(b, "\n"), "\r") {
+					c.Count("pairs_with_carriage_returns", 1)
+				}
 				if i == 0 {
 					c.Sample(map[string]any{"a": strings.Join(a, "\n"), "b": strings.Join(b, "\n")})
 				}
@@ -296,6 +315,6 @@ func init() {
 			}
 		},
 		MinNontrivial:    func(string) int { return 50000 },
-		RequiredCounters: []string{"hunks_applied", "pairs_with_elision", "equal_pairs", "exhaustive_pairs"},
+		RequiredCounters: []string{"hunks_applied", "pairs_with_elision", "equal_pairs", "exhaustive_pairs", "pairs_with_carriage_returns"},
 	})
 }
